@@ -1225,7 +1225,7 @@ func ParseDateTime(env envs.Environment, args ...types.XValue) types.XValue {
 		}
 
 		var err error
-		location, err = time.LoadLocation(tzStr.Native())
+		location, err = envs.LoadTimezone(tzStr.Native())
 		if err != nil {
 			return types.NewXError(err)
 		}
@@ -2008,7 +2008,7 @@ func FormatDateTime(env envs.Environment, args ...types.XValue) types.XValue {
 			return xerr
 		}
 
-		location, err = time.LoadLocation(arg3.Native())
+		location, err = envs.LoadTimezone(arg3.Native())
 		if err != nil {
 			return types.NewXError(err)
 		}
